@@ -61,6 +61,18 @@ CHECKS = {
          "bad exports must be rejected with a diagnostic.",
          "Trusted: resolve() in pyprops/c11.py and read_elf() in pyprops/formats.py. .set symbols are referenced only "
          "after assignment; references use .dc32 (no instruction sizing involved).", "DESIGN.md 3/C11"),
+ "C02": ("hypothesis+nvserve",
+         "exhaustive template x variant enumeration + Hypothesis multi-instruction programs; pass-1/pass-2 differential and marker placement oracle",
+         "Generated-input search: for the 47 CPUs with an instruction corpus every instruction text of tests/comparison "
+         "(plus hand-written size-dependent forms) has each numeric operand replaced by a label or .set symbol in 19 "
+         "canonical one-instruction programs (forward/backward, label values 0, 1..8, <0x80, <0x100, 0x1230, 0x7ffc, "
+         "0x12340, .set re-assigned across size boundaries; -optimize for msp430) - an exhaustive enumeration of the "
+         "template universe - and Hypothesis composes 1..8 such instructions with 2..8 labels in two .org segments. "
+         "Oracle 1 (library interface of tests/symbol_address): label addresses after pass 1 == after pass 2. Oracle 2 "
+         "(black box): the unique 8-byte marker after each label lies at the address the symbol table binds to it.",
+         "Only accepted programs are judged. Four per-CPU defects are listed as open findings by (cpu, template regex); "
+         "those templates are excluded from the Hypothesis part by construction and attributed in the enumeration.",
+         "DESIGN.md 3/C02"),
 }
 
 NOT_YET = "check not built yet (work in progress; see DESIGN.md section 3)"
